@@ -40,6 +40,7 @@ GROUPS = {
     'Arith': dict(kind='translate', flags=RELEASE, names=ARITH, mem=False),
     'Tables': dict(kind='tables', flags=RELEASE),
     'Secure': dict(kind='translate', flags=SECURE, names=SECURE_FNS, namespace='GenS', log_errors=True),
+    'Purge': dict(kind='custom', flags=RELEASE, fn='gen_purge'),
     'Formats': dict(kind='custom', flags=RELEASE, fn='gen_formats'),
     'Entry': dict(kind='translate', flags=RELEASE, names=ENTRY, mem=False, explicit_in=('mi_posix_memalign',), namespace='GenE'),
 }
@@ -82,6 +83,31 @@ def lean_str(s):
         elif 32 <= o < 127: r.append(ch)
         else: r.append('\\x%02x' % (o & 0xff))
     return '"' + ''.join(r) + '"'
+
+
+PURGE_GUARDS = [
+    # (lean name, C function, identifiers of the condition, kwargs, doc)
+    ('arenasTryPurge_skip', 'mi_arenas_try_purge', ['force', 'arenas_expire', 'now'], {}, 'early exit of mi_arenas_try_purge'),
+    ('arenaTryPurge_skip', 'mi_arena_try_purge', ['force', 'expire', 'now'], {}, 'early exit of mi_arena_try_purge'),
+    ('arenaSchedule_never', 'mi_arena_schedule_purge', ['delay'], {'index': 0}, 'mi_arena_schedule_purge: purging not allowed at all'),
+    ('arenaSchedule_now', 'mi_arena_schedule_purge', ['delay'], {'index': 1, 'then_any': True, 'allow_extra': True}, 'mi_arena_schedule_purge: purge directly'),
+    ('segTryPurge_skip', 'mi_segment_try_purge', ['force', 'now', 'segment'], {'allow_extra': True}, 'not-yet-expired exit of mi_segment_try_purge'),
+    ('segSchedule_first', 'mi_segment_schedule_purge', ['segment'], {'index': 1, 'then_any': True, 'allow_extra': True}, 'mi_segment_schedule_purge: no purge pending yet'),
+    ('segSchedule_expired', 'mi_segment_schedule_purge', ['now', 'segment'], {'index': 0, 'then_any': True, 'allow_extra': True}, 'mi_segment_schedule_purge: pending purge already expired'),
+    ('segSchedule_force', 'mi_segment_schedule_purge', ['now', 'segment'], {'index': 1, 'then_any': True, 'allow_extra': True}, 'mi_segment_schedule_purge: expired long enough to purge at once'),
+]
+
+
+def gen_purge(tu, spec):
+    """decision points of the purge machinery as Lean predicates (guard extraction, DESIGN.md 2.1)"""
+    L = ['-- GENERATED by /verif/extract/gen.py (guard extraction from %s/src/arena.c and segment.c). DO NOT EDIT.' % tu.repo,
+         'import MiVerif.Gen.Prelude', HEADER, 'namespace Gen']
+    for name, fn, ids, kw, doc in PURGE_GUARDS:
+        ps, c = T.extract_guard(tu, fn, ids, **kw)
+        L.append('/-- %s -/' % doc)
+        L.append('def %s %s : Bool :=\n  decide (%s)' % (name, ps, c))
+    L.append('end Gen')
+    return '\n'.join(L) + '\n'
 
 
 def gen_formats(tu, spec):
